@@ -55,3 +55,11 @@ pub mod error {
     ///
     pub use super::errors::tool::ToolError;
 }
+
+/// Verification hooks: re-exports of private items for the out-of-tree proof harnesses.
+/// Compiled only with `--cfg ebml_iterable_verif`; not part of the public API.
+#[cfg(ebml_iterable_verif)]
+pub mod verif_hooks {
+    pub use super::spec_util::{validate_tag_path, is_ended_by, is_parent, is_sibling};
+    pub use super::tag_iterator_util::{EBMLSize, ProcessingTag};
+}
